@@ -4,10 +4,12 @@ import (
 	"fmt"
 	"os"
 
+	"bbcheck/internal/an"
 	"bbcheck/internal/norm"
 )
 
-// printDecls lists the declared functions of the library (used once to freeze norm.Known).
+// printDecls lists the declared functions (and, with types=true, the named types) of the library (used once to
+// freeze norm.Known / norm.KnownTypes).
 func printDecls(repo string) {
 	ds, err := norm.Decls(repo, nil)
 	if err != nil {
@@ -16,5 +18,21 @@ func printDecls(repo string) {
 	}
 	for _, d := range ds {
 		fmt.Println(d)
+	}
+	sigs, err := norm.Sigs(repo, an.LoadEnv(""))
+	if err != nil {
+		fmt.Println("ERROR:", err)
+		os.Exit(2)
+	}
+	for _, d := range ds {
+		fmt.Println("sig " + d + "\t" + sigs[d])
+	}
+	ts, err := norm.TypeDecls(repo)
+	if err != nil {
+		fmt.Println("ERROR:", err)
+		os.Exit(2)
+	}
+	for _, t := range ts {
+		fmt.Println("type " + t)
 	}
 }
